@@ -203,3 +203,71 @@ pub fn nest(depth: u32, with_else: bool, code: u8) -> Vec<El> {
     }
     cur
 }
+
+/// Inert filler around signature checks: NOPs, code separators and conditionals whose condition is the
+/// constant pushed right before them (so which branch executes is known without an interpreter).
+#[derive(Clone, Debug, PartialEq, Eq, Serialize, Deserialize)]
+pub enum Filler {
+    Nop,
+    Sep,
+    Block { cond: bool, notif: bool, pass: Vec<Filler>, fail: Option<Vec<Filler>> },
+}
+
+pub fn filler_els(f: &[Filler]) -> Vec<El> {
+    let mut out = vec![];
+    for j in f {
+        match j {
+            Filler::Nop => out.push(El::Op(0x61)),
+            Filler::Sep => out.push(El::Op(tok::OP_CODESEPARATOR)),
+            Filler::Block { cond, notif, pass, fail } => {
+                out.push(El::Op(if *cond { 0x51 } else { 0x00 }));
+                out.push(El::If { code: if *notif { tok::OP_NOTIF } else { tok::OP_IF }, pass: filler_els(pass), fail: fail.as_ref().map(|f| filler_els(f)) });
+            }
+        }
+    }
+    out
+}
+
+pub fn filler(max_len: usize) -> BoxedStrategy<Vec<Filler>> {
+    let leaf = prop_oneof![3 => Just(Filler::Nop), 2 => Just(Filler::Sep)];
+    let el = leaf.prop_recursive(2, 24, 5, |inner| {
+        (any::<bool>(), any::<bool>(), prop::collection::vec(inner.clone(), 0..6), prop::option::of(prop::collection::vec(inner, 0..6))).prop_map(|(cond, notif, pass, fail)| Filler::Block { cond, notif, pass, fail }).boxed()
+    });
+    prop::collection::vec(el, 0..=max_len).boxed()
+}
+
+/// Walks the written-out script the way an interpreter does, for scripts whose conditionals all follow a
+/// constant OP_0 / OP_1: returns the index (in the token list) just after the last code separator executed
+/// before the first executed opcode in `stop_at`, and that opcode's index.
+pub fn executed_separator(tokens: &[Tok], stop_at: std::ops::RangeInclusive<u8>) -> (usize, Option<usize>) {
+    let mut exec: Vec<bool> = vec![];
+    let mut after_sep = 0usize;
+    for (i, t) in tokens.iter().enumerate() {
+        let running = exec.iter().all(|b| *b);
+        match t {
+            Tok::Op(c @ (99 | 100)) => {
+                if running {
+                    let cond = matches!(tokens.get(i.wrapping_sub(1)), Some(Tok::Op(0x51)));
+                    exec.push(cond ^ (*c == 100));
+                } else {
+                    exec.push(false);
+                }
+            }
+            Tok::Op(103) => {
+                let parent = exec[..exec.len().saturating_sub(1)].iter().all(|b| *b);
+                if let Some(top) = exec.last_mut() {
+                    if parent {
+                        *top = !*top;
+                    }
+                }
+            }
+            Tok::Op(104) => {
+                exec.pop();
+            }
+            Tok::Op(171) if running => after_sep = i + 1,
+            Tok::Op(c) if running && stop_at.contains(c) => return (after_sep, Some(i)),
+            _ => {}
+        }
+    }
+    (after_sep, None)
+}
